@@ -100,6 +100,54 @@ def _access(ch, dep, where, q):
     return r
 
 
+def nested_worlds():
+    """a dependant that lives in a (nested) namespace and addresses its input by the input's FULL name / shorter forms"""
+    out = []
+    for ns_path in (['n'], ['o', 'n'], ['o', 'n', 'm']):
+        full_ns = '::'.join(ns_path)
+        for group in (None, 'g', 'g:h'):
+            local = f'{group}:x' if group else 'x'
+            for ref in (f'{full_ns}::{local}', f'{full_ns}::x', local, 'x'):
+                tasks = {'X': {'name': 'x', 'group': group, 'params': [], 'inputs': [], 'data': 'json'},
+                         'D': {'name': 'd', 'group': None, 'params': [], 'inputs': [{'how': 'name', 'ref': ref}], 'data': 'json'}}
+                cfgs = {'pipe': {'medium': 'json', 'tasks': ['X', 'D'], 'values': {}}}
+                prev = 'pipe'
+                for i, ns in enumerate(reversed(ns_path)):
+                    cfgs[f'w{i}'] = {'medium': 'json', 'tasks': [], 'values': {}, 'uses': [{'config': prev, 'as': ns}]}
+                    prev = f'w{i}'
+                out.append(({'name': 'nested-names', 'tasks': tasks, 'configs': cfgs, 'root': prev, 'variants': {'v': []}}, full_ns, local, ref))
+    return out
+
+
+def check_nested():
+    res = Result()
+    for desc, full_ns, local, ref in nested_worlds():
+        root = scratch.fresh('c10n')
+        w = worlds.World(desc, root)
+        res.add('evaluations')
+        res.add('chain_worlds')
+        case = {'kind': 'nested', 'ref': ref, 'ns': full_ns, 'local': local}
+        try:
+            try:
+                ch = w.chain('v', base_dir=root + '/data')
+            except Exception as e:  # noqa
+                res.violations.append(Violation('inputs: a dependant cannot address its input by full name / unique shorter form inside a nested namespace',
+                                                f'namespace {full_ns}, input task {local}, referenced as {ref!r}: {type(e).__name__}: {e}', case))
+                continue
+            target = ch.tasks[f'{full_ns}::{local}']
+            d = ch.tasks[f'{full_ns}::d']
+            got = [t for t in d.input_tasks.values()]
+            if len(got) != 1 or got[0] is not target:
+                res.violations.append(Violation('inputs: reference resolved to another task', f'namespace {full_ns}, reference {ref!r}: {[getattr(t, "fullname", t) for t in got]}', case))
+            for q in (f'{full_ns}::{local}', f'{full_ns}::x', local, 'x'):
+                if ch[q] is not target or q not in ch or d.input_tasks[q] is not target or q not in d.input_tasks:
+                    res.violations.append(Violation('chain/inputs: nested-namespace task not addressable by full or shorter name', f'namespace {full_ns}, task {local}, query {q!r}', case))
+        finally:
+            w.dispose()
+            scratch.drop(root)
+    return res
+
+
 def _job(sets):
     import tcv
 
@@ -122,10 +170,13 @@ def run(tier, seed):
     n = 64
     for r in pmap(_job, [sets[i::n] for i in range(n)]):
         res.merge(r)
+    res.merge(check_nested())
     res.coverage['chain_leg'] = {'name_sets': len(sets), 'universe': len(UNIVERSE), 'queries': len(QUERIES) + 1, 'triples_complete': tier != 'quick'}
     return res
 
 
 def replay(case):
+    if case.get('kind') == 'nested':
+        return [v for v in check_nested().violations if v.case == case]
     ev, vs = check_set(tuple(case['names']))
     return vs
